@@ -81,7 +81,8 @@ def main():
     wd = fresh_workdir(PID)
     try:
         spec = dict(
-            pid=PID, level="exploration", binaries={v: (e, ["--workdir", wd]) for v, e in exes.items()}, runs={"quick": 2000, "thorough": 100000}, variant_runs={"race": 600} if args.tier == "quick" else {}, thorough_budget_s=900, chunk=40,
+            pid=PID, level="exploration", binaries={v: (e, ["--workdir", wd]) for v, e in exes.items()}, runs={"quick": 2000, "thorough": 100000}, variant_runs={"race": 600} if args.tier == "quick" else {}, thorough_budget_s=900, chunk=40, idle_limit=45,   # a plan with 512 check files runs for several seconds
+           
             signature=signature, param_min=[1, 0, 0],
             nontrivial=lambda r: r.get("ctr", {}).get("fork", 0) >= 1 and r.get("ctr", {}).get("context_switches", 0) >= 4,
             rule="one run = one seeded set of .check files (1..6 quick / 1..12 thorough, in 1..3 directories; commands exiting 0 / k / by a signal / failing to exec, with or without shall_fail, expected_output checks that match or not, "
